@@ -35,6 +35,8 @@ pub trait Tab {
     fn index_disabled(&self, d: usize) -> Val;
     fn index_mut_disabled(&mut self, d: usize, v: Val);
     fn dup(&self) -> Box<dyn Tab>;
+    /// `Clone::clone_from` (an impl may override it separately from `clone`)
+    fn clone_from_dyn(&mut self, other: &dyn Tab);
     fn eq_dyn(&self, other: &dyn Tab) -> bool;
     fn as_any(&self) -> &dyn Any;
     fn transform(&self, g: &dyn Fn(KeyPos, &Val) -> Val) -> Box<dyn Tab>;
@@ -99,6 +101,11 @@ macro_rules! c10_glue {
             fn index_disabled(&self, d: usize) -> $crate::c10::Val { self[$spec::DISABLED[d]].clone() }
             fn index_mut_disabled(&mut self, d: usize, v: $crate::c10::Val) { self[$spec::DISABLED[d]] = v; }
             fn dup(&self) -> Box<dyn $crate::c10::Tab> { Box::new(self.clone()) }
+            fn clone_from_dyn(&mut self, other: &dyn $crate::c10::Tab) {
+                if let Some(o) = other.as_any().downcast_ref::<$table<$crate::c10::Val>>() {
+                    ::std::clone::Clone::clone_from(self, o);
+                }
+            }
             fn eq_dyn(&self, other: &dyn $crate::c10::Tab) -> bool {
                 match other.as_any().downcast_ref::<$table<$crate::c10::Val>>() {
                     Some(o) => self == o,
@@ -187,11 +194,13 @@ pub enum Op {
     TransformPanic(usize, usize),
     /// clone h, change exactly slot p of the clone: `==` must turn false; restore it: true again
     EqProbe(usize, usize, u64),
+    /// `tables[a].clone_from(&tables[b])`
+    CloneFrom(usize, usize),
 }
 
 pub const OP_KINDS: &[&str] = &[
     "new", "filled", "default", "from_closure", "transform", "clone", "drop", "set", "modify", "replace", "get",
-    "idx_disabled", "idxmut_disabled", "all", "all_ok", "eq", "closure_panic", "transform_panic", "eq_probe",
+    "idx_disabled", "idxmut_disabled", "all", "all_ok", "eq", "closure_panic", "transform_panic", "eq_probe", "clone_from",
 ];
 
 impl Op {
@@ -216,6 +225,7 @@ impl Op {
             Op::ClosurePanic(..) => 16,
             Op::TransformPanic(..) => 17,
             Op::EqProbe(..) => 18,
+            Op::CloneFrom(..) => 19,
         }
     }
     pub fn line(&self) -> String {
@@ -228,7 +238,7 @@ impl Op {
             Op::Get(h, p) | Op::IdxDisabled(h, p) | Op::ClosurePanic(h, p) | Op::TransformPanic(h, p) => format!("{} {} {}", n, h, p),
             Op::IdxMutDisabled(h, d, v) => format!("{} {} {} {}", n, h, d, v),
             Op::All(h, m, how) | Op::AllOk(h, m, how) => format!("{} {} {} {}", n, h, m, how),
-            Op::Eq(a, b) => format!("{} {} {}", n, a, b),
+            Op::Eq(a, b) | Op::CloneFrom(a, b) => format!("{} {} {}", n, a, b),
         }
     }
     pub fn parse(line: &str) -> Result<Op, String> {
@@ -260,6 +270,7 @@ impl Op {
             "closure_panic" => Op::ClosurePanic(us(1)?, us(2)?),
             "transform_panic" => Op::TransformPanic(us(1)?, us(2)?),
             "eq_probe" => Op::EqProbe(us(1)?, us(2)?, num(3)?),
+            "clone_from" => Op::CloneFrom(us(1)?, us(2)?),
             other => return Err(format!("unknown op {:?}", other)),
         })
     }
@@ -274,7 +285,7 @@ pub const NAMES: &[&str] = &[
     "probe_err_in_first_and_later_slot", "probe_err_only_in_last_slot", "probe_none_only_in_last_slot",
     "probe_none_only_in_first_slot", "probe_all_none_free", "probe_all_ok_err_free", "probe_transform_after_writes",
     "probe_clone_then_diverge", "probe_eq_true", "probe_eq_false", "probe_multiple_err_planted", "op_eq_probe",
-    "probe_planted_beyond_slot_64",
+    "probe_planted_beyond_slot_64", "op_clone_from",
 ];
 const F_DISABLED: usize = 18;
 const F_NONE: usize = 19;
@@ -296,6 +307,7 @@ const P_EQ_FALSE: usize = 34;
 const P_MULTI_ERR: usize = 35;
 const OP_EQ_PROBE: usize = 36;
 const P_BEYOND_64: usize = 37;
+const OP_CLONE_FROM: usize = 38;
 
 pub struct Failure {
     pub oracle: &'static str,
@@ -394,7 +406,11 @@ impl<'a> Exec<'a> {
             self.steps += 1;
             self.trace.u(op.kind() as u64);
             if let Some(st) = stats.as_deref_mut() {
-                st.hit(if op.kind() == 18 { OP_EQ_PROBE } else { op.kind() });
+                st.hit(match op.kind() {
+                    18 => OP_EQ_PROBE,
+                    19 => OP_CLONE_FROM,
+                    k => k,
+                });
             }
             let fail = |oracle: &'static str, e: String, o: String| Failure { oracle, step, op: Some(op.clone()), expected: e, observed: o };
             let nslots = slots.len();
@@ -677,6 +693,21 @@ impl<'a> Exec<'a> {
                         }
                     }
                 }
+                Op::CloneFrom(a, b) => {
+                    let (a, b) = (hh(*a), hh(*b));
+                    if a != b {
+                        // take the destination out so that source and destination can be borrowed together
+                        let mut dst = slots.remove(a);
+                        let src_i = if b > a { b - 1 } else { b };
+                        let r = catch(|| dst.real.clone_from_dyn(&*slots[src_i].real));
+                        dst.model = slots[src_i].model.clone();
+                        dst.writes += 1;
+                        slots.insert(a, dst);
+                        r.map_err(|m| fail("panic", "no panic".into(), m))?;
+                        self.nontrivial = true;
+                        self.note(|| op.line());
+                    }
+                }
                 Op::EqProbe(h, p, v) => {
                     if n > 0 {
                         let i = hh(*h);
@@ -805,6 +836,7 @@ pub fn gen_ops(rng: &mut Rng, n: usize, nd: usize) -> Vec<Op> {
             if allow_closure_panic { 2 } else { 0 },
             if allow_closure_panic { 2 } else { 0 },
             if allow_clone { 4 } else { 1 }, // eq_probe
+            if allow_clone { 5 } else { 0 }, // clone_from
         ];
         let kind = rng.weighted(&w);
         let p = if n > 0 { rng.usize_below(n) } else { 0 };
@@ -847,7 +879,8 @@ pub fn gen_ops(rng: &mut Rng, n: usize, nd: usize) -> Vec<Op> {
             15 => Op::Eq(h, rng.usize_below(MAX_TABLES)),
             16 => Op::ClosurePanic(h, p),
             17 => Op::TransformPanic(h, p),
-            _ => Op::EqProbe(h, p, fresh(1)),
+            18 => Op::EqProbe(h, p, fresh(1)),
+            _ => Op::CloneFrom(h, rng.usize_below(MAX_TABLES)),
         };
         ops.push(op);
     }
